@@ -9,6 +9,7 @@ import (
 	"os"
 	"sort"
 	"sync"
+	"syscall"
 	"time"
 )
 
@@ -166,6 +167,19 @@ func main() {
 	rep := &Report{Property: *prop, Tier: *tier, Seed: *seed, Distribution: map[string]int{},
 		KnownSeen: map[string]string{}, distinct: map[string]bool{}, Samples: []interface{}{},
 		Disagree: []Disagreement{}, Extra: map[string]interface{}{}}
+	// the extracted model recurses over long lists (unary nat, non-tail-recursive list functions): give the driver
+	// processes (children of this one) a deep stack
+	var rl syscall.Rlimit
+	if syscall.Getrlimit(syscall.RLIMIT_STACK, &rl) == nil {
+		want := uint64(4 << 30)
+		if rl.Max < want {
+			want = rl.Max
+		}
+		if rl.Cur < want {
+			rl.Cur = want
+			syscall.Setrlimit(syscall.RLIMIT_STACK, &rl)
+		}
+	}
 	m := NewModel(*driverPath)
 	ctx := &Ctx{Tier: *tier, Seed: *seed, Rng: NewRNG(*seed), Model: m, Rep: rep, Scale: *scale,
 		Replay: *replay, Work: *work, Corpus: *corpus, Fzf: *fzfbin}
